@@ -434,9 +434,41 @@ type userScanner2 struct {
 
 func (u *userScanner2) Naming() string { return "verif.userscanner2" }
 
+// emptyValue: a tag whose value part is empty still has its arguments: prop:",required=false" is the prop
+// shorthand for the empty key (the configuration root) with an explicit required=false.
+func (p c19) emptyValue(c *core.Ctx) {
+	withConfig := c.Rng.Intn(2) == 0
+	doc := ""
+	if withConfig {
+		doc = "alpha: 1\nbeta:\n  gamma: x\n"
+	}
+	tagName := []string{"prop", "value", "prefix"}[c.Rng.Intn(3)]
+	args := []string{",required=false", ",Required=false", ",required=false,x=1 2", ",note=[a,b],required=false"}[c.Rng.Intn(4)]
+	tag := world.WireTag(tagName, args)
+	h := world.NewHolder(world.BuildStruct([]world.FieldSpec{{Name: "All", Type: reflect.TypeOf(map[string]any{}), Tag: tag}}))
+	r := world.Start(&world.Scenario{Config: doc}, world.Options{Extra: []any{h}, NoTracer: true})
+	c.Count("e2e_starts", 1)
+	detail := map[string]any{"tag": tag, "config": doc, "outcome": core.Short(r.OutcomeDetail(), 300)}
+	if r.Outcome() != "ok" {
+		c.Fail("", fmt.Sprintf("holder with %s (empty value part, explicit required=false) failed to start: %s", tag, core.Short(r.OutcomeDetail(), 300)), detail)
+		return
+	}
+	got := reflect.ValueOf(h).Elem().Field(0).Interface().(map[string]any)
+	if tagName != "value" && withConfig && (len(got) != 2 || fmt.Sprint(got["alpha"]) != "1") {
+		c.Fail("", fmt.Sprintf("%s with an empty key addresses the configuration root, the field holds %v", tag, got), detail)
+		return
+	}
+	c.Count("empty_value_part_cases", 1)
+	c.Nontrivial("emptyvalue:" + tag + fmt.Sprint(withConfig))
+}
+
 func (p c19) e2e(c *core.Ctx) {
 	if c.Index%5 == 2 {
 		p.isolated(c)
+		return
+	}
+	if c.Index%5 == 4 && c.Index%2 == 0 {
+		p.emptyValue(c)
 		return
 	}
 	extra := func() string {
